@@ -5,6 +5,7 @@ package main
 
 import (
 	"fmt"
+	"github.com/nlnwa/whatwg-url/url"
 	"strings"
 )
 
@@ -555,6 +556,18 @@ func genInputFor(r *Rand, c *Cfg) string {
 	}
 	if o.LaxHostParsing {
 		extras = append(extras, "a b", "a<b", "a%zzb", "a^b", "%", "a|b", "a\x7fb")
+	}
+	if o.SkipWindowsDriveLetterNormalization {
+		// … and as a reference against a file base whose own drive letter was left un-normalised
+		extras = append(extras, "/C:x", "/C|x", "C:", "/d|")
+	}
+	// a replaced percent-encode set: the characters it adds or drops, and the broken escapes whose '%' only the set of THAT
+	// component may touch (the invalid-escape branch of each state encodes with the state's own set)
+	for _, ps := range []*url.PercentEncodeSet{o.PathPercentEncodeSet, o.QueryPercentEncodeSet, o.SpecialQueryPercentEncodeSet, o.FragmentPercentEncodeSet, o.SpecialFragmentPercentEncodeSet} {
+		if ps != nil && ps.RuneShouldBeEncoded('%') {
+			extras = append(extras, "%2e%2", "a%zz", "%", "x%4", "%%41", "%2", "a%b%c")
+			break
+		}
 	}
 	if len(extras) == 0 {
 		return genInput(r)
